@@ -74,20 +74,18 @@ var c07Types = []schedulingv1alpha1.DeviceType{c07GPU, c07RDMA, c07FPGA}
 // the plugin (built once per process with the package's own suite; every case installs a fresh cache)
 
 var (
-	c07Once      sync.Once
-	c07Pl        *Plugin
-	c07NodeObjs  = map[string]*corev1.Node{} // the Node objects Plugin.Reserve gets from the snapshot; labels are set per case
+	c07Once sync.Once
+	c07Pl   *Plugin
+	// the Node objects Plugin.Reserve gets from the snapshot; labels are set per case
+	c07NodeObjs = map[string]*corev1.Node{
+		"n0": {ObjectMeta: metav1.ObjectMeta{Name: "n0"}},
+		"n1": {ObjectMeta: metav1.ObjectMeta{Name: "n1"}},
+	}
 )
 
 func c07Plugin(t *testing.T) *Plugin {
 	c07Once.Do(func() {
-		nodes := []*corev1.Node{
-			{ObjectMeta: metav1.ObjectMeta{Name: "n0"}},
-			{ObjectMeta: metav1.ObjectMeta{Name: "n1"}},
-		}
-		for _, n := range nodes {
-			c07NodeObjs[n.Name] = n
-		}
+		nodes := []*corev1.Node{c07NodeObjs["n0"], c07NodeObjs["n1"]}
 		suit := newPluginTestSuit(t, nodes)
 		p, err := suit.proxyNew(context.TODO(), getDefaultArgs(), suit.Framework)
 		if err != nil {
